@@ -202,6 +202,9 @@ Proof. intros Hps. unfold blurring_grid_from. rewrite derive_mask_commutes. appl
 
 Theorem padded_mask_translates (d : RP) (M : RM) kh kw : padded_mask (translate d M) kh kw = translate d (padded_mask M kh kw).
 Proof. reflexivity. Qed.
+Theorem trimmed_array_mask_translates (d : RP) (M : RM) ih iw :
+  trimmed_array_mask (translate d M) ih iw = translate d (trimmed_array_mask M ih iw).
+Proof. reflexivity. Qed.
 Theorem padded_grid_from_translates (d : RP) (M : RM) kh kw : ps_ok (mps M) ->
   padded_grid_from (translate d M) kh kw = shift d (padded_grid_from M kh kw).
 Proof. intros Hps. unfold padded_grid_from. rewrite padded_mask_translates. apply from_mask_translates. exact Hps. Qed.
